@@ -384,9 +384,15 @@ class Program:
         # transaction manager: contextmanager method executing a BEGIN statement and yielding
         def executes_begin(f, depth=0):
             for n in walk_shallow(f.node):
-                if isinstance(n, ast.Call) and n.args and isinstance(n.args[0], ast.Constant) \
-                        and isinstance(n.args[0].value, str) and n.args[0].value.strip().upper().startswith('BEGIN'):
-                    return True
+                if isinstance(n, ast.Call) and n.args:
+                    a0 = n.args[0]
+                    if isinstance(a0, ast.Name):        # statement text held in a module-level constant
+                        ce = self.const_expr(f.module, a0.id)
+                        if ce and ce[0] is not None:
+                            a0 = ce[0]
+                    if isinstance(a0, ast.Constant) and isinstance(a0.value, str) \
+                            and a0.value.strip().upper().startswith('BEGIN'):
+                        return True
                 # ... or in a private helper method it calls
                 if isinstance(n, ast.Call) and depth < 3 and (dotted(n.func) or '').startswith('self._'):
                     h = cache.methods.get(dotted(n.func)[5:])
